@@ -212,13 +212,6 @@ class ArrayReductionBaseTrans(Transformation, ABC):
                               orig_lhs.walk(Reference)[1:]):
             if rhs_reference.symbol is lhs_symbol:
                 increment = True
-        if increment:
-            new_lhs_symbol = node.scope.symbol_table.new_symbol(
-                root_name="tmp_var", symbol_type=DataSymbol,
-                datatype=orig_lhs.datatype)
-            new_lhs = Reference(new_lhs_symbol)
-        else:
-            new_lhs = orig_lhs.copy()
 
         expr, _, mask_ref = self._get_args(node)
 
@@ -302,20 +295,32 @@ class ArrayReductionBaseTrans(Transformation, ABC):
         try:
             # The temporary assignment is only used to create the loops, so
             # its lhs may overlap with its rhs.
-            ArrayAssignment2LoopsTrans().apply(
+            ArrayAssignment2LoopsTrans().validate(
                 assignment, {"allow_overlap": True})
         except TransformationError as err:
             # The ArrayAssignment2LoopsTrans could fail to convert the ranges,
             # unfortunately this can not be tested before modifications to the
             # tree (e.g. in the validate), so the best we can do is reverting
-            # to the orginal statement (with maybe some leftover tmp variable)
-            # and produce the error here.
+            # to the orginal statement and produce the error here. No symbol
+            # has been created yet, so the symbol table is untouched.
             assignment.replace_with(orig_assignment)
             # pylint: disable=raise-missing-from
             raise TransformationError(
                 f"ArrayAssignment2LoopsTrans could not convert the "
                 f"expression:\n{assignment.debug_string()}\n into a loop "
                 f"because:\n{err.value}")
+        # The conversion is now known to succeed. If the assignment is an
+        # increment, declare the temporary (before the loop variables so
+        # that the order of declarations is unchanged).
+        if increment:
+            new_lhs_symbol = assignment.scope.symbol_table.new_symbol(
+                root_name="tmp_var", symbol_type=DataSymbol,
+                datatype=orig_lhs.datatype)
+            new_lhs = Reference(new_lhs_symbol)
+        else:
+            new_lhs = orig_lhs.copy()
+        ArrayAssignment2LoopsTrans().apply(
+            assignment, {"allow_overlap": True})
         outer_loop = assignment_parent.children[assignment_position]
         if mask_ref:
             # remove mask from the rhs of the assignment
